@@ -65,7 +65,10 @@ func genPayload(r *rand.Rand) []byte {
 	case 0:
 		n = vh.Pick(r, 0, 1, 15, 16, 17, 31, 32, 33, 47, 48, 49)
 	case 1:
-		n = 50 + r.IntN(200)
+		n = 50 + r.IntN(40)
+		if r.IntN(8) == 0 {
+			n = 100 + r.IntN(200)
+		}
 	default:
 		n = r.IntN(49)
 	}
@@ -311,7 +314,7 @@ func genOp(r *rand.Rand) opIn {
 }
 
 func gen(r *rand.Rand, tier string, i int) input {
-	n := 1 + r.IntN(4)
+	n := 1 + r.IntN(3)
 	ops := make([]opIn, n)
 	for j := range ops {
 		ops[j] = genOp(r)
